@@ -13,6 +13,7 @@
              independent probe-inserting reference instrumenter (tools/impl/ref_instr.py) on generated programs. *)
 From Coq Require Import List ZArith NArith Bool Sorted.
 Import ListNotations.
+From PyccoloV Require model.RwFrag model.FragSem proofs.FragSemProofs.
 From PyccoloV Require Import gen.PyAst gen.Ids gen.Events gen.EmitRet model.Val model.Rt model.Tree model.Erase model.Sites
   proofs.RtProofs proofs.DeliverProofs proofs.EraseSound.
 
@@ -70,3 +71,26 @@ Definition ex_out : tree := emit_call E_after_binop 0 (T kBinOp [] [[emit_call E
 Definition ex_bad : tree := emit_call E_after_binop 0 (T kBinOp [] [[emit_call E_load_name 4 (nm 100)]; [T kAdd [] []]; [cst 1]]).
 Example C02_nonvacuous : check_sites ex_src ex_out = true /\ check_sites ex_src ex_bad = false /\ check_erase ex_src ex_out = true.
 Proof. vm_compute. repeat split; reflexivity. Qed.
+
+(* the event stream on the fragment (model/FragSem.v), for ALL primitive operations, subscriptions, source modules and environments:
+   the events the tracer subscribes to arrive exactly as the reference evaluator `ref_module` writes them out construct by construct
+   (this is the event table of DESIGN 11 restricted to the fragment): each occurrence once, in evaluation order, with the value and
+   the node of that occurrence, also when the program raises half-way.  K-sem compares both sides with real runs. *)
+Theorem C02_frag_stream : forall binop cmpop unop truth cval is_and (c : RwFrag.rcfg) (body : list FragSem.tstmt) (r : FragSem.env) (sv : FragSem.val),
+  forallb FragSemProofs.src_s body = true ->
+  FragSem.filter_log c (FragSem.s_log (FragSem.exec_l binop cmpop unop truth cval is_and (FragSem.instr_module c body) r sv)) =
+  FragSem.filter_log c (FragSem.r_log (FragSem.ref_module binop cmpop unop truth cval is_and body r)).
+Proof. exact FragSemProofs.frag_stream. Qed.
+Print Assumptions C02_frag_stream.
+
+(* non-vacuity: `a = 2 + 3` with the binop events and after_assign_rhs subscribed: the stream is
+   before_binop, left_binop_arg 2, right_binop_arg 3, after_binop 5, after_assign_rhs 5 *)
+Example C02_frag_stream_nonvacuous :
+  let body := [FragSem.SAssign 1 [100] (FragSem.XBin 4 (FragSem.XConst 5 (SInt 2%Z)) kAdd (FragSem.XConst 7 (SInt 3%Z)))] in
+  let c := {| RwFrag.sub := fun e => existsb (event_eqb e) [E_before_binop; E_left_binop_arg; E_right_binop_arg; E_after_binop; E_after_assign_rhs] |} in
+  forallb FragSemProofs.src_s body = true /\
+  FragSem.filter_log c (FragSem.s_log (FragSem.exec_l FragSem.Py.binop FragSem.Py.cmpop FragSem.Py.unop FragSem.Py.truth FragSem.Py.cval FragSem.Py.is_and
+                                         (FragSem.instr_module c body) (fun _ => None) FragSem.VNone)) =
+  [(E_before_binop, 4, None); (E_left_binop_arg, 5, Some (FragSem.VInt 2)); (E_right_binop_arg, 7, Some (FragSem.VInt 3));
+   (E_after_binop, 4, Some (FragSem.VInt 5)); (E_after_assign_rhs, 4, Some (FragSem.VInt 5))].
+Proof. vm_compute. split; reflexivity. Qed.
